@@ -90,13 +90,13 @@ def main(tier, seed):
         out = []
         nl = m.to_nl()
         cfgs = [0, 1, rng.choice([2, 3, 4]), 4][:ctx_ncfg]
-        for which in cfgs:
+        for pos, which in enumerate(cfgs):
             acc = pick_acc(rng, which)
             opts = pick_opts(rng)
             flags = {'quadobj': rng.choice([0, 1])}
             info = dict(cfg=CFGNAMES[which], opts=opts, ops=ops, decided=0, feas=0, infeas=0, unknown=0, refused=False, approx=False, unsupported='', types=[])
             res = []
-            r = mpmon.run_case(exe, wd, 'e%d_%d' % (k, which), nl, opts=opts + ['wantsol=1'], acc=acc, flags=flags, timeout=120)
+            r = mpmon.run_case(exe, wd, 'e%d_%d_%d' % (k, pos, which), nl, opts=opts + ['wantsol=1'], acc=acc, flags=flags, timeout=120)
             tr = flat_eval.Trace(r['trace'])
             death = run.classify_death(r)
             txt = (r['out'] + r['err']).decode('utf-8', 'replace')
@@ -170,13 +170,14 @@ def main(tier, seed):
                         res.append(('objective-sense-differs', '%s vs %s' % (tr.objs[0]['sense'], sense)))
                         enc.done(); break
                 enc.done()
+            out.append((k, res, info))
+        for pos, ((kk, res, info), which) in enumerate(zip(out, cfgs)):       # keep the files of violating runs only
             if not res:
                 for ext in ('.nl', '.sol', '.trace'):
                     try:
-                        os.unlink(r['base'] + ext)
+                        os.unlink(os.path.join(wd, 'e%d_%d_%d%s' % (k, pos, which, ext)))
                     except OSError:
                         pass
-            out.append((k, res, info))
         return out
 
     ctx_ncfg = 4 if tier == 'thorough' else 3
